@@ -244,6 +244,20 @@ func routerInvariants(p rPath, n int, which string) []string {
 			if which == "deadline" && !armed {
 				add("prefetch (step %d) runs without the matching deadline armed: a silent or trickling client holds the connection forever", i)
 			}
+			if which == "routing" && n > 0 {
+				// progress: waiting for more bytes is justified only by a route that can still match - one after the
+				// last route that ran whose latest verdict on the stream as it is now is "need more" (or that has
+				// not been asked on this stream yet)
+				pending := false
+				for j := lastHandled + 1; j < n; j++ {
+					if resEpoch[j] != epoch || res[j] == "" || res[j] == "NM" {
+						pending = true
+					}
+				}
+				if !pending {
+					add("prefetch (step %d) although every route after route %d has decided on the current stream: the connection waits for bytes nobody needs - the fallback is delayed until the client sends more, or never runs (timeout)", i, lastHandled)
+				}
+			}
 			if s.Note != "ok" {
 				done = true
 			}
